@@ -26,7 +26,7 @@ package filesystem
 //@   ensures smload.n == old(smload.n) + 1 && smload.arg0[old(smload.n)] == &p.states && smload.arg1[old(smload.n)] == iface(fileName)
 //@   ensures !smload.ret1[old(smload.n)] ==> ret0 == nil && ond.n == old(ond.n) && smdel.n == old(smdel.n)
 //@   ensures smload.ret1[old(smload.n)] ==> ond.n == old(ond.n) + 1 && ret0 == ond.ret0[old(ond.n)]
-//@   assert at call OnDeleted#1: callarg1 != nil && callarg1.MetaData.Source == "file_system:" + fileName && len(callarg1.Rules) == 0
+//@   assert at call OnDeleted#1@c98cf5d3.1: callarg1 != nil && callarg1.MetaData.Source == "file_system:" + fileName && len(callarg1.Rules) == 0
 //@   ensures smload.ret1[old(smload.n)] && ret0 == nil ==> smdel.n == old(smdel.n) + 1 && smdel.arg0[old(smdel.n)] == &p.states && smdel.arg1[old(smdel.n)] == iface(fileName)
 //@   ensures ret0 != nil ==> smdel.n == old(smdel.n)
 //@   ensures onc.n == old(onc.n) && onu.n == old(onu.n) && smstore.n == old(smstore.n) && lrs.n == old(lrs.n)
@@ -52,8 +52,8 @@ package filesystem
 //@   ensures lrs.ret1[old(lrs.n)] == nil && fsKnown(smload.ret0[old(smload.n)], smload.ret1[old(smload.n)]) && beq.ret0[old(beq.n)] ==> onu.n == old(onu.n) && onc.n == old(onc.n) && ret0 == nil && smstore.n == old(smstore.n)
 //@   ensures lrs.ret1[old(lrs.n)] == nil && ret0 != nil ==> smstore.n == old(smstore.n)
 //@   ensures lrs.ret1[old(lrs.n)] == nil && fsKnown(smload.ret0[old(smload.n)], smload.ret1[old(smload.n)]) ==> beq.n == old(beq.n) + 1
-//@   assert at call Equal#1: callarg0 == unbox(smload.ret0[smload.n - 1], "[]byte") && callarg1 == lrs.ret0[lrs.n - 1].Hash
-//@   assert at call Store#1: callarg2 == iface(lrs.ret0[lrs.n - 1].Hash)
+//@   assert at call Equal#1@3396ef02.1: callarg0 == unbox(smload.ret0[smload.n - 1], "[]byte") && callarg1 == lrs.ret0[lrs.n - 1].Hash
+//@   assert at call Store#1@151caede.1: callarg2 == iface(lrs.ret0[lrs.n - 1].Hash)
 //@   ensures lrs.ret1[old(lrs.n)] == nil && ret0 == nil && (onc.n > old(onc.n) || onu.n > old(onu.n)) ==> smstore.n == old(smstore.n) + 1 && smstore.arg0[old(smstore.n)] == &p.states && smstore.arg1[old(smstore.n)] == iface(fileName)
 
 // known(v, ok): the state map has a non-empty hash for the file
